@@ -37,9 +37,10 @@ def build():
         return vlib.go_build("./cmd/pcapio"), False
 
 
-def selftest(wd, good_events):
+def selftest(wd, good_events, good_mixed=None):
     """Binding of the trace spec: a recorded good scenario is accepted, and the same scenario with one corrupted
-    field (one more packet at a cut, a shifted file size, an altered capture length) is rejected."""
+    field (one more packet at a cut, a shifted file size, an altered capture length, retained data or retained
+    AncillaryData overwritten by the last read) is rejected."""
     def clone(evs, sc):
         out = []
         for e in evs:
@@ -60,14 +61,25 @@ def selftest(wd, good_events):
     cu = [e for e in d if e["op"] == "cuts" and e["k"] == 0][-1]     # last run without the first packet ...
     nxt = [e for e in d if e["op"] == "read"][0]["pk"][0]["td"]
     cu["k"], cu["tds"] = 1, [nxt]                                     # ... claims to have returned it
+    g = clone(good_events, 6)
+    rd = [e for e in g if e["op"] == "read" and e["mode"] == "copy"][0]
+    for pkt in rd["pk"]:
+        pkt["dd"] = rd["pk"][-1]["dd"]              # every retained data slice shows the bytes of the last packet
+    want = {2: "not-eof-or-unexpected-eof", 3: "file-size-differs-from-framing", 4: "capture-length-altered",
+            5: "packet-not-wholly-in-prefix-returned", 6: "data-altered"}
+    extra = []
+    if good_mixed is not None:
+        extra = clone(good_mixed, 7) + clone(good_mixed, 8)
+        rd = [e for e in extra if e["sc"] == 8 and e["op"] == "read" and e["mode"] == "copy" and e["mix"]][0]
+        for pkt in rd["pk"]:
+            pkt["lt"] = rd["pk"][-1]["lt"]          # every retained AncillaryData shows the link type of the last packet
+        want[8] = "link-type-altered"
     tp = os.path.join(wd, "selftest.ndjson")
     with open(tp, "w") as f:
-        for e in t + a + b + c + d:
+        for e in t + a + b + c + d + g + extra:
             f.write(json.dumps(e) + "\n")
     v = validate("PcapFileTrace", tp, "c14self", timeout=600)
     got = {b_["sc"]: b_["reason"] for b_ in v["bad"]}
-    want = {2: "not-eof-or-unexpected-eof", 3: "file-size-differs-from-framing", 4: "capture-length-altered",
-            5: "packet-not-wholly-in-prefix-returned"}
     if got != want:
         raise vlib.Infra("PcapFileTrace binding self-test failed: expected %s, got %s" % (want, got))
     return len(want)
@@ -83,7 +95,10 @@ def run(ctx):
     if quick:
         # quick: one rotation and one pcapng head, both chosen by the seed
         subst = {r"VSet = \{[^}]*\}": "VSet = {%d}" % (ctx.seed % 5),
-                 r"HeadSet = \{[^}]*\}": "HeadSet = {%d}" % (1 + ctx.seed % 5)}
+                 # ... plus always one head with two interfaces of different link types (4 or 5)
+                 r"HeadSet = \{[^}]*\}": "HeadSet = {%d, %d}" % (1 + ctx.seed % 5, 4 + (ctx.seed // 5) % 2),
+                 # one packet with freely chosen comment; all capture-length sequences up to 3 packets with rotated comments
+                 r"MaxPk = \d+": "MaxPk = 1"}
     g = vlib.tlc("PcapFileGen", workdir=os.path.join(wd, "gen"), timeout=3000, workers=8, cfg_subst=subst or None)
     if g.violated:
         raise vlib.Infra("PcapFileGen.tla: %s violated (PcapFile.tla rejects the ideal reader / accepts the eager one)" % g.violated)
@@ -100,7 +115,7 @@ def run(ctx):
     parts = 3 if quick else 8
     per = (len(keep) + parts - 1) // parts
     total_sc = total_ev = tstates = nbad = 0
-    samples, good = [], None
+    samples, good, goodmix = [], None, None
     libpcap_used = False
 
     def one(pi):
@@ -132,7 +147,7 @@ def run(ctx):
         nbad += v["nbad"]
         libpcap_used = libpcap_used or st.get("libpcap", False)
         ev = None
-        if v["bad"] or good is None or not samples:
+        if v["bad"] or good is None or goodmix is None or not samples:
             ev = vlib.read_ndjson(tp)
         for b in v["bad"]:
             lo = b["line"] - 1
@@ -144,22 +159,31 @@ def run(ctx):
         if ev is not None:
             if not samples:
                 samples = [e for e in ev[:40] if e["op"] in ("scn", "file", "cuts")][:6]
-            if good is None:
+            if good is None or goodmix is None:
                 badsc = {b["sc"] for b in v["bad"]}
                 cur = []
                 for e in ev:
                     if e["op"] == "scn":
                         cur = []
                     cur.append(e)
-                    if e["op"] == "done" and e["sc"] not in badsc and cur[0]["scen"]["fmt"] == "pcap" and \
-                       len(cur[0]["scen"]["items"]) >= 2 and cur[0]["scen"]["items"][0]["cap"] > 0 and \
+                    if e["op"] != "done" or e["sc"] in badsc:
+                        continue
+                    sc0 = cur[0]["scen"]
+                    if good is None and sc0["fmt"] == "pcap" and len(sc0["items"]) >= 2 and sc0["items"][0]["cap"] > 0 and \
                        not any(b["fmt"] == "pcap" for b in v["bad"]):
                         good = cur
+                    if goodmix is None and sc0["fmt"] == "ng" and sc0["mixed"] and \
+                       all(it.get("tsoff", 0) == 0 for it in sc0["items"] if it["t"] == "idb") and \
+                       {b["reason"] for b in v["bad"] if b["fmt"] == "ng"} <= {"timestamp-shifted-by-interface-offset"}:
+                        rdm = [x for x in cur if x["op"] == "read" and x["mode"] == "copy" and x.get("mix")]
+                        if rdm and len({pk["lt"] for pk in rdm[0]["pk"]}) >= 2 and rdm[0]["pk"][0]["lt"] != rdm[0]["pk"][-1]["lt"]:
+                            goodmix = cur
+                    if good is not None and goodmix is not None:
                         break
         os.remove(tp)
     nself = 0
     if good is not None:
-        nself = selftest(wd, good)
+        nself = selftest(wd, good, goodmix)
         log("[C14] binding self-test: %d corrupted copies of a recorded scenario rejected, the original accepted" % nself)
     elif not V.violations:
         raise vlib.Infra("no accepted scenario available for the binding self-test")
